@@ -33,7 +33,7 @@ def dispatch (c : Conf) (op : String) (args : List String) (got : String) : Opti
   let latch := (c.extra.lookup "latch").getD "1" == "1"
   (C01.handle e01 op args) <|> (match c.fp with
     | some e => C02.handle e op args got
-    | none => none) <|> (C07.handle e01.cfg op args) <|> (C09.handle c.w c.size op args got) <|> (C14.handle op args) <|> (C15.handle c.w c.size op args got) <|> (C19.handle latch op args)
+    | none => none) <|> (C07.handle e01.cfg op args) <|> (C09.handle c.w c.size c.digs op args got) <|> (C14.handle op args) <|> (C15.handle c.w c.size op args got) <|> (C19.handle latch op args)
 
 def processLine (c : Conf) (line : String) : String :=
   match line.splitOn " => " with
